@@ -21,6 +21,10 @@ class Unsupported(AnalysisError):
     pass
 
 
+class Diverges(Unsupported):
+    """the interpreted code exceeded the loop bound / step budget (treated as 'does not terminate')"""
+
+
 class _Return(Exception):
     def __init__(self, value):
         self.value = value
@@ -226,8 +230,8 @@ class Evaluator:
             n = 0
             while self.truth(self.expr(s.test, env, fi)):
                 n += 1
-                if n > 10000:
-                    raise Unsupported("loop bound exceeded")
+                if n > 1000:
+                    raise Diverges("loop bound exceeded")
                 try:
                     self.block(s.body, env, fi)
                 except _Break:
